@@ -503,7 +503,19 @@ func (f *CallForm) TransitionNP(process *Process, re *RuntimeEnvironment) {
 	}
 
 	// Always perform DUP before CALL, so that if self is passed as the first parameter, then we can safely substitute the first provider
-	TransitionInternally(process, callRule, re)
+	// (as TransitionInternally does, but the duplicates have to continue in the non-polarized semantics as well)
+	select {
+	case <-re.ctx.Done():
+		// If received cancellation request, then stop
+		return
+	default:
+	}
+
+	if len(process.Providers) > 1 {
+		process.performDUPruleNP(re)
+	} else {
+		callRule()
+	}
 
 	// // Always perform CALL before DUP
 	// prioritiseCallRule := true
